@@ -576,7 +576,7 @@ STRINGS = ["", "x", "hello world", "yes", "no", "on", "null", "~", "true", "1.0"
            "multi\nline", "tab\there", "dev", "test", "prod", ".5", "+1", "0o7", "NaN", ".inf", "y", "N"]
 ENV_STRINGS = ["${C17_A}", "$C17_B", "pre-${C17_A}-post", "http://$C17_B/x", "${C17_UNSET}", "$C17_A$C17_B", "cost 5$",
                "${C17_A}${C17_UNSET}"]
-ENV_VALUES = ["valueA", "b-2.x/y", "Zz_9", "srv.local:8080x", "w"]
+ENV_VALUES = ["valueA", "b-2.x/y", "Zz_9", "srv.local:8080x", "w", ""]
 ENV_MAP_KEYS = ["$C17_A", "${C17_B}k", "pre$C17_A", "${C17_UNSET}u"]      # os.ExpandEnv works on the text: keys too
 PROP_VALUES = ["plain", "${C17_A}", "$C17_B", "pre-${C17_A}-post", "http://$C17_B/x", "${C17_UNSET}", "$C17_A$C17_B", "cost 5$",
                "a b  c", "tcp(${C17_A}:3306)/db"]
@@ -705,6 +705,8 @@ class Gen:
             return rng.choice([0, 1, 5, 7, 42, 100]) if lo == 0 else rng.choice([0, 1, -1, 5, 7, 42, -100])
         if r < 0.8:
             return rng.choice([lo, hi])
+        if r < 0.84 and b == 64:
+            return rng.choice([2 ** 53 + 1, 2 ** 53 - 1, 2 ** 62 + 3] + ([-(2 ** 53) - 1] if lo < 0 else []))
         if r < 0.9:
             return max(-2 ** 63, min(2 ** 63 - 1, rng.choice([lo - 1, hi + 1])))
         return rng.randint(max(lo, -10 ** 6), min(hi, 10 ** 6))
@@ -961,14 +963,14 @@ def apply_chain(chain, leaf):
 
 
 def ptr_to_container(t):
-    """a pointer whose target is a slice / array / map occurs in the type: mapping panics or errs on
-    such fields whatever the document says (outside C08's and C17's family); only the conf layer
-    (white-box) is exercised on them"""
+    """a pointer whose target is a slice / array / map / []byte / interface{} occurs in the type: mapping
+    panics or errs on such fields whatever the document says (outside C08's and C17's family, see
+    notes/C17.md); only the conf layer (white-box) is exercised on them"""
     t = unname(t)
     k = t["k"]
     if k == "ptr":
         e = unname(t["e"])
-        return e["k"] in ("slice", "arr", "map") or ptr_to_container(e)
+        return e["k"] in ("slice", "arr", "map", "bytes", "any") or ptr_to_container(e)
     if k in ("slice", "arr", "map"):
         return ptr_to_container(t["e"])
     if k == "struct":
@@ -1249,7 +1251,7 @@ def regen_constants():
 class C17(Property):
     id = "C17"
     title = "Configuration loading is format-independent and agrees with encoding/json"
-    quick_cases = 700
+    quick_cases = 600
     model_targets = ["theories/C17/Check.vo", "theories/C17/KnownCheck.vo"]
     thorough_cases = 9000
     design_ref = "DESIGN.md §6/C17"
@@ -1380,6 +1382,10 @@ class C17(Property):
             cs.append({"kind": "shape", "type": [F("Timeout", P("dur")), F("Idle", Ptr(P("dur")), O(opt=True))], "env": None,
                        "noload": False, "doc": dm(("Timeout", di(1000)), ("Idle", ds("1m"))),
                        "doc2": dm(("TIMEOUT", di(1000)), ("idle", ds("1m")))})
+        if fix_landed(FIX_MBOOL):
+            cs.append({"kind": "shape", "type": [F("Flags", Mp(Nm("MyBool"))), F("Names", Mp(Nm("MyStr")), O(opt=True))], "env": None,
+                       "noload": False, "doc": dm(("Flags", dm(("Kk", db(True)))), ("Names", dm(("a", ds("x"))))),
+                       "doc2": dm(("FLAGS", dm(("Kk", db(True)))), ("names", dm(("a", ds("x")))))})
         kids = vlib.known_ids(self.id)
         for kid, c in flagged:
             if kid in kids:        # kept out until the coordinator has added the known-finding line
@@ -1513,10 +1519,11 @@ class C17(Property):
                     cstr(k), cstr(v),
                     copt(cstr(obs["propsoff"][k]) if obs.get("propsoff") and k in obs["propsoff"] else None),
                     copt(cstr(obs["propson"][k]) if obs.get("propson") and k in obs["propson"] else None)))
-            ex = "(Some (mkExtra %s %s %s %s %s %s %s %s %s))" % (
+            ex = "(Some (mkExtra %s %s %s %s %s %s %s %s %s %s))" % (
                 clist(["(%s, %s)" % (cstr(e), cob(r)) for e, r in sorted(obs["byext"].items())]),
                 clist(["(%s, %s)" % (cstr(e), cob(r)) for e, r in sorted((obs.get("must") or {}).items())]),
                 cob(obs.get("fill")), copt(cob3(obs["envref"]) if obs.get("envref") else None),
+                copt(cob3(obs["envmust"]) if obs.get("envmust") else None),
                 clist(["(%s, %s)" % (cstr(e), cob(r)) for e, r in sorted((obs.get("depr") or {}).items())]),
                 clist(props), info, clc(w.get("lc")), clc(w.get("lc2")))
         return "CaseLoad %s %s %s %s %s %s %s %s %s %s %s %s" % (
